@@ -146,28 +146,27 @@ _BODY_WEIGHTED = (['attr-removed'] * 4 + ['elem-renamed'] * 3 + ['v11-elem-in-v1
 
 
 @st.composite
-def _mutant_cases(draw):
-    group = draw(st.sampled_from(['body'] * 8 + ['header-fault', 'header-variant']))
-    db = draw(st.sampled_from(['empty', 'unrelated']))
-    if group != 'body':
-        res = draw(_documents(_SMALL, max_lexicons=2))
-        classes = lmfmut.HEADER_FAULTS if group == 'header-fault' else lmfmut.HEADER_VARIANTS
-        mut = {'class': draw(st.sampled_from(classes)), 'kind': None, 'pos': 0,
-               'arg': draw(st.integers(0, 11))}
-        return {'resource': res, 'style': draw(xmlw.styles()), 'mutation': mut, 'db': db}
-    want = draw(st.sampled_from(_BODY_WEIGHTED))
-    version = None
-    if want == 'v11-elem-in-v10':
-        version = '1.0'
-    elif want in ('doctype-downgrade', 'child-duplicated') and draw(st.booleans()):
-        version = draw(st.sampled_from(['1.1', '1.2', '1.3']))
-    res = draw(_documents(version=version))
+def _mutant_cases(draw, n_mutations=6):
+    """One document and several independent single-fault mutations of it."""
+    forced = draw(st.sampled_from([None, None, None, '1.0', '1.0', '1.1', '1.3']))
+    res = draw(_documents(version=forced))
+    style = draw(xmlw.styles())
     avail = lmfmut.available(xmlw.to_tree(res), res['lmf_version'])
-    if want not in avail:
-        want = draw(st.sampled_from(sorted(avail)))
-    mut = {'class': want, 'kind': draw(st.sampled_from(avail[want])) or None,
-           'pos': draw(st.integers(0, 9999)), 'arg': draw(st.integers(0, 41))}
-    return {'resource': res, 'style': draw(xmlw.styles()), 'mutation': mut, 'db': db}
+    body = [c for c in _BODY_WEIGHTED if c in avail]
+    muts = []
+    for _ in range(n_mutations):
+        group = draw(st.sampled_from(['body'] * 8 + ['header-fault', 'header-variant']))
+        if group == 'body':
+            cls = draw(st.sampled_from(body))
+            muts.append({'class': cls, 'kind': draw(st.sampled_from(avail[cls])) or None,
+                         'pos': draw(st.integers(0, 9999)), 'arg': draw(st.integers(0, 41))})
+        else:
+            classes = (lmfmut.HEADER_FAULTS if group == 'header-fault'
+                       else lmfmut.HEADER_VARIANTS)
+            muts.append({'class': draw(st.sampled_from(classes)), 'kind': None, 'pos': 0,
+                         'arg': draw(st.integers(0, 11))})
+    return {'resource': res, 'style': style, 'mutations': muts,
+            'db': draw(st.sampled_from(['empty', 'unrelated']))}
 
 
 def _collect(strategy, n, seed_value):
@@ -207,7 +206,7 @@ def _enumerate_positions(tier, shard, nshards):
 
         def case(cls, pos, arg=0):
             return {'resource': res, 'style': style, 'db': db,
-                    'mutation': {'class': cls, 'kind': None, 'pos': pos, 'arg': arg}}
+                    'mutations': [{'class': cls, 'kind': None, 'pos': pos, 'arg': arg}]}
         for cls in lmfmut.BODY_CLASSES:
             n = lmfmut.count_sites(cls, res, style)
             if cls == 'truncated':
@@ -407,10 +406,10 @@ def valid_oracle(case):
     return out
 
 
-def _add_must_reject(case, f, built, workdir, out):
+def _add_must_reject(dbstate, case, f, built, workdir, out):
     import wn
     import wn.lmf as lmf
-    db = _prepare_db(case['db'], workdir)
+    db = _prepare_db(dbstate, workdir)
     before = dumps.raw_dump(db.file)
     raised = None
     try:
@@ -447,13 +446,25 @@ def _add_must_reject(case, f, built, workdir, out):
 
 def mutant_oracle(case):
     import wn.lmf as lmf
-    res, style, mut = case['resource'], case['style'], case['mutation']
+    res, style = case['resource'], case['style']
     d = env.new_dir('c20m')
-    out: list[Disc] = []
     orig = lmfmut.valid_bytes(res, style)
     _selftest_valid(res, style, orig, d / 'orig.xml')
+    # the premise of "single fault": the unmutated document is accepted
     try:
-        built = lmfmut.build(res, style, mut)
+        lmf.load(d / 'orig.xml', progress_handler=None)
+    except Exception as exc:  # noqa: BLE001
+        return [Disc('valid-file-rejected-by-load', 'document', 'accepted', _exc(exc))]
+    out: list[Disc] = []
+    for k, mut in enumerate(case['mutations']):
+        _one_mutant(case, k, mut, orig, d, out)
+    return out
+
+
+def _one_mutant(case, k, mut, orig, d, out):
+    import wn.lmf as lmf
+    try:
+        built = lmfmut.build(case['resource'], case['style'], mut)
     except lmfmut.MutationError as exc:
         raise env.HarnessError(f'mutation not applicable: {mut}: {exc}') from exc
     if built.data == orig:
@@ -462,14 +473,11 @@ def mutant_oracle(case):
         raise env.HarnessError(f'mutant well-formedness is not {built.wellformed}: {mut} '
                                f'{built.what}')
     where = f'{built.cls}:{built.kind}' if built.kind else built.cls
-    f = d / 'mutant.xml'
+    f = d / f'mutant{k}.xml'
     f.write_bytes(built.data)
-
-    # the premise of "single fault": the unmutated document is accepted
-    try:
-        lmf.load(d / 'orig.xml', progress_handler=None)
-    except Exception as exc:  # noqa: BLE001
-        return [Disc('valid-file-rejected-by-load', 'document', 'accepted', _exc(exc))]
+    # alternate the database state over the mutants of one document
+    dbstate = case['db'] if k % 2 == 0 else ('empty' if case['db'] == 'unrelated'
+                                             else 'unrelated')
 
     try:
         is_lmf = lmf.is_lmf(f)
@@ -482,8 +490,8 @@ def mutant_oracle(case):
 
     if built.header == 'variant' and is_lmf is True:
         # header accepted: the file is a valid document
-        _check_valid_file(case, f, 'header-variant', case['db'], d, out)
-        return out
+        _check_valid_file(case, f, 'header-variant', dbstate, d, out)
+        return
 
     if built.header == 'intact' and is_lmf is False:
         out.append(Disc('is_lmf-false-with-valid-header', where, True, False, note=built.what))
@@ -502,8 +510,7 @@ def mutant_oracle(case):
                         [f"{lx.get('id')}:{lx.get('version')}" for lx in got['lexicons']],
                         note=built.what))
 
-    _add_must_reject(case, f, built, d, out)
-    return out
+    _add_must_reject(dbstate, case, f, built, d, out)
 
 
 # ---------------------------------------------------------------------------
@@ -554,22 +561,35 @@ def _classify_valid(case):
     return bool(nontrivial), sorted(set(tags + _take_outcome(case)))
 
 
-def _classify_mutant(case):
-    mut = case['mutation']
-    tags = _doc_tags(case)
+def _site_kind(case, mut):
+    """The kind of the site a body mutation lands on (for the histogram)."""
     cls = mut['class']
-    group = ('header-fault' if cls in lmfmut.HEADER_FAULTS else
-             'header-variant' if cls in lmfmut.HEADER_VARIANTS else 'body')
-    tags += ['class:' + cls, 'group:' + group]
+    if cls in ('truncated', 'doctype-downgrade') or cls not in lmfmut.BODY_CLASSES:
+        return None
+    res = case['resource']
+    cands = lmfmut.sites(cls, xmlw.to_tree(res), res['lmf_version'])
     if mut.get('kind'):
-        tags.append(f"site:{cls}:{mut['kind']}")
-    if cls in lmfmut.NOT_WELLFORMED:
-        tags.append('group:not-well-formed')
+        cands = [c for c in cands if c[0] == mut['kind']] or cands
+    return cands[mut['pos'] % len(cands)][0] if cands else None
+
+
+def _classify_mutant(case):
+    tags = _doc_tags(case)
+    for mut in case['mutations']:
+        cls = mut['class']
+        group = ('header-fault' if cls in lmfmut.HEADER_FAULTS else
+                 'header-variant' if cls in lmfmut.HEADER_VARIANTS else 'body')
+        tags += ['class:' + cls, 'group:' + group]
+        kind = _site_kind(case, mut)
+        if kind:
+            tags.append(f'site:{cls}:{kind}')
+        if cls in lmfmut.NOT_WELLFORMED:
+            tags.append('group:not-well-formed')
     return True, sorted(set(tags + _take_outcome(case)))
 
 
 def _fp(case):
-    return fingerprint([case['resource'], case['style'], case.get('mutation'),
+    return fingerprint([case['resource'], case['style'], case.get('mutations'),
                         case.get('literal_ws'), case['db']])
 
 
@@ -578,7 +598,7 @@ def _sample(case):
     return {'lmf_version': res['lmf_version'],
             'lexicons': [[lx['id'], lx['version'], lx['label'],
                           'ext' if lx.get('extends') else 'lex'] for lx in res['lexicons']],
-            'style': case['style'], 'mutation': case.get('mutation'),
+            'style': case['style'], 'mutations': case.get('mutations'),
             'literal_ws': case.get('literal_ws'), 'lookalike': case.get('lookalike'),
             'db': case['db']}
 
@@ -588,21 +608,23 @@ _REQUIRED_CLASSES = tuple('class:' + c for c in lmfmut.BODY_CLASSES + lmfmut.HEA
 
 SUBS = [
     Sub('valid', valid_oracle, _classify_valid, strategy=lambda tier: _valid_cases(),
-        budget={'quick': 70, 'thorough': 350}, fingerprint=_fp, sample=_sample,
+        budget={'quick': 45, 'thorough': 300}, fingerprint=_fp, sample=_sample,
         require_tags=('extension', 'literal-white-space', 'cdata-lookalike',
                       'scanned:amp-or-lt', 'scanned:quote', 'scanned:tab-lf-cr',
                       'scanned:non-ascii-as-reference')),
-    Sub('mutants', mutant_oracle, _classify_mutant, strategy=lambda tier: _mutant_cases(),
-        budget={'quick': 220, 'thorough': 1200}, fingerprint=_fp, sample=_sample,
-        require_tags=_REQUIRED_CLASSES + (
+    Sub('mutants', mutant_oracle, _classify_mutant,
+        strategy=lambda tier: _mutant_cases(6 if tier == 'quick' else 8),
+        budget={'quick': 50, 'thorough': 220}, fingerprint=_fp, sample=_sample,
+        require_tags=tuple('class:' + c for c in lmfmut.BODY_CLASSES) + (
+            'group:header-fault', 'group:header-variant',
             'site:child-duplicated:Lemma', 'site:child-duplicated:ILIDefinition',
             'site:child-duplicated:Extends', 'site:attr-removed:Lexicon@id',
-            'site:attr-removed:Sense@synset', 'site:attr-removed:Extends@version',
-            'group:header-fault', 'group:header-variant')),
+            'site:attr-removed:Sense@synset')),
     Sub('mutants-every-position', mutant_oracle, _classify_mutant,
         enumerate=_enumerate_positions,
         exhaustive_note='every mutation class at every site (truncation: every byte of the '
                         'prolog and first start tag, then strided) of generated documents; '
                         'all header classes and arguments',
-        fingerprint=_fp, sample=_sample),
+        fingerprint=_fp, sample=_sample,
+        require_tags=_REQUIRED_CLASSES),
 ]
